@@ -83,7 +83,8 @@ CHECKS = {
   note=TB + "Modelled, not verified: salsa inputs as association lists; durabilities are not modelled.", ref="5.C11, 4.5"),
  "C17": dict(
   technique="Lean 4 proofs about the path functions (M-project) + tie through the verif hooks on generated project trees + end-to-end through the binary",
-  text=("moduleName_spec (<root>/<src|test>/<segs>/<n>.gleam is importable as segs/n), moduleName_other_ext, assignRoot_innermost / assignRoot_total "
+  text=("M-graph (Model/Graph.lean: Server::assemble_graph as a depth-first walk over the manifests with the `seen` map) with assemble_inv / assemble_sound (Props/C17Graph.lean): for EVERY set of manifests, start and fuel, every edge of the assembled graph is a dependency its source package declares, both ends are registered packages and no package is registered twice; tied by the driver command `graph` to the graphs the real assemble_graph builds for the generated layouts (120 per quick run). "
+        "moduleName_spec (<root>/<src|test>/<segs>/<n>.gleam is importable as segs/n), moduleName_other_ext, assignRoot_innermost / assignRoot_total "
         "(each file belongs to the innermost package root containing it), isLocal_iff (exactly build/packages/<name> is external), "
         "free_standing_none, projectParent_has_toml (Props/C17.lean); on the model of Package::visible_modules (M-imports): resolve_sound (an import reaches a module "
         "of that name of the importing package or of a direct dependency and nothing else), resolve_complete, transitive_invisible, own_wins, "
